@@ -460,6 +460,11 @@ RenameNews(c, d) ==
   IN IF o = Inbox THEN CreateNews(d)
      ELSE {Moved(i, o, n) : i \in {o} \cup Inferiors(o, boxes)} \cup (Supers(n) \ boxes)
 Steered == mode = "steered"
+\* mode "stalehit" steers the other way: whenever a RENAME exists that lands an INFERIOR of the renamed mailbox on a name that
+\* is deleted but still subscribed, it is taken (the entry of that name has to go whichever code path gives the name away)
+StalePrefixes == UNION {{SubSeq(st, 1, k) : k \in 1..(Len(st) - 1)} : st \in Stale}
+HitPairs == {pr \in (boxes \ {Inbox}) \X StalePrefixes :
+               pr[2] \notin boxes /\ \E i \in Inferiors(pr[1], boxes) : Moved(i, pr[1], pr[2]) \in Stale}
 \* instead of the risky step a steered behaviour takes the stale name off the subscription list
 Clean(s, news) == \E n \in {Pick(news \cap Stale)} : Unsubscribe(s, Raw(n, "plain"))
 
@@ -469,7 +474,9 @@ SimStep(k) ==
                             IF Steered /\ CreateNews(c) \cap Stale # {} THEN Clean(s, CreateNews(c)) ELSE Create(s, Raw(c, f))
       [] k = "delete"  -> \E c \in {PickExisting}, f \in {PickForm} : Delete(s, Raw(c, f))
       [] k = "rename"  -> \E c \in {PickExisting}, d \in {PickTyped}, f \in {PickForm} :
-                            IF Steered
+                            IF mode = "stalehit" /\ HitPairs # {}
+                            THEN \E pr \in {Pick(HitPairs)} : Rename(s, Raw(pr[1], "plain"), Raw(pr[2], "plain"))
+                            ELSE IF Steered
                             THEN IF RenameNews(c, d) \cap Stale # {} THEN Clean(s, RenameNews(c, d))
                                  ELSE Rename(s, Raw(c, "plain"), Raw(d, "plain"))
                             ELSE Rename(s, Raw(c, "plain"), Raw(d, f))
